@@ -150,6 +150,27 @@ Theorem C17_generate_versions_module :
 Proof. exact generate_versions_module. Qed.
 Print Assumptions C17_generate_versions_module.
 
+(* a program's entry (versions, counters, stacks) depends only on that
+   program's own records - and the known Go versions, its module's proxy list
+   and its padding, which are fixed here: not on the other programs of the
+   configuration, on the order of the records of different programs, nor on
+   whether other programs share its module.  (generate is a function of its
+   inputs: nothing is carried from one call to the next; the suite checks the
+   real generate against it over several calls in one process.) *)
+Theorem C17_generate_entry_of_own_records :
+  forall (is_valid : bool -> bytes -> bool) (vcmp : bool -> bytes -> bytes -> comparison)
+         (canonical prerelease : bytes -> bytes),
+  (forall tc a b c, cmp_le (vcmp tc a b) = true -> cmp_le (vcmp tc b c) = true -> cmp_le (vcmp tc a c) = true) ->
+  (forall tc a b, vcmp tc a b = Gt -> cmp_le (vcmp tc b a) = true) ->
+  forall go_versions proxy paddings patterns gcfgs1 gcfgs2 out1 out2 o1 o2,
+  generate is_valid vcmp canonical prerelease go_versions proxy paddings patterns gcfgs1 = GOk out1 ->
+  generate is_valid vcmp canonical prerelease go_versions proxy paddings patterns gcfgs2 = GOk out2 ->
+  In o1 out1 -> In o2 out2 -> o_name o1 = o_name o2 ->
+  filter (fun r => beq (c_program r) (o_name o1)) gcfgs1 = filter (fun r => beq (c_program r) (o_name o1)) gcfgs2 ->
+  o1 = o2.
+Proof. exact generate_entry_of_own_records. Qed.
+Print Assumptions C17_generate_entry_of_own_records.
+
 (* the executable oracles accept the model's output *)
 Theorem C17_generate_oracles :
   forall (is_valid : bool -> bytes -> bool) (vcmp : bool -> bytes -> bytes -> comparison)
